@@ -8,8 +8,12 @@ import (
 	stderrors "errors"
 	"fmt"
 	"io"
+	"net"
+	"os"
 	"strings"
+	"syscall"
 	"testing"
+	"time"
 )
 
 type vC08PtrErr struct{ s string }
@@ -24,6 +28,41 @@ type vC08Empty struct{}
 
 func (vC08Empty) Error() string { return "" }
 
+// roots that are wrappers themselves: an Unwrap method, but no Cause method
+type vC08Unwrap struct {
+	s     string
+	inner error
+}
+
+func (e *vC08Unwrap) Error() string { return e.s }
+func (e *vC08Unwrap) Unwrap() error { return e.inner }
+
+type vC08Multi struct {
+	s      string
+	inners []error
+}
+
+func (e *vC08Multi) Error() string   { return e.s }
+func (e *vC08Multi) Unwrap() []error { return e.inners }
+
+// a foreign type implementing the documented causer interface
+type vC08Causer struct {
+	s     string
+	inner error
+}
+
+func (e *vC08Causer) Error() string { return e.s }
+func (e *vC08Causer) Cause() error  { return e.inner }
+
+// how the case text (and the model) describes a table entry:
+// form 1 plain root, 4 root with Unwrap (kind 0 nil, 1 itself, 2 another error, 3 []error),
+// 5 foreign causer whose Cause() returns table entry inner
+type vC08Meta struct {
+	form, kind, inner int
+}
+
+var vC08SelfWrap = &vC08Unwrap{s: "wraps itself"}
+
 // ids 0..3 are the ones coq/Lib/Err.v names (EOF, ErrUnexpectedEOF, ErrClosedPipe, ErrShortWrite)
 var vC08Sentinels = []error{
 	io.EOF,
@@ -36,6 +75,75 @@ var vC08Sentinels = []error{
 	vC08Empty{},
 	&vC08PtrErr{"has: separator: inside"},
 	fmt.Errorf("fmt sentinel %d%%", 9),
+	// 10..17: wrapper-typed roots without a Cause method
+	&vC08Unwrap{"custom wrapper of EOF", io.EOF},
+	&vC08Unwrap{"custom wrapper of nil", nil},
+	vC08SelfWrap,
+	&net.OpError{Op: "read", Net: "tcp", Err: syscall.ECONNRESET},
+	&os.PathError{Op: "open", Path: "/nonexistent", Err: syscall.ENOENT},
+	fmt.Errorf("wrapped with %%w: %w", io.ErrUnexpectedEOF),
+	stderrors.Join(io.EOF, io.ErrClosedPipe),
+	&vC08Multi{"custom multi wrapper", []error{io.ErrShortWrite, io.EOF}},
+	// 18..20: foreign causers (filled in by init: they refer to other entries)
+	nil, nil, nil,
+}
+
+var vC08Metas = []vC08Meta{
+	{1, 0, -1}, {1, 0, -1}, {1, 0, -1}, {1, 0, -1}, {1, 0, -1}, {1, 0, -1}, {1, 0, -1}, {1, 0, -1}, {1, 0, -1}, {1, 0, -1},
+	{4, 2, 0}, {4, 0, -1}, {4, 1, -1}, {4, 2, -1}, {4, 2, -1}, {4, 2, 1}, {4, 3, -1}, {4, 3, -1},
+	{5, 0, 4}, {5, 0, 13}, {5, 0, 18},
+}
+
+func init() {
+	vC08SelfWrap.inner = vC08SelfWrap
+	vC08Sentinels[18] = &vC08Causer{"foreign causer over a custom error", vC08Sentinels[4]}
+	vC08Sentinels[19] = &vC08Causer{"foreign causer over a net.OpError", vC08Sentinels[13]}
+	vC08Sentinels[20] = &vC08Causer{"foreign causer over a foreign causer", vC08Sentinels[18]}
+}
+
+// errors.Cause under a watchdog: a Cause that follows Unwrap never returns on an error that
+// unwraps to itself.  After the first hang further calls on such roots are not attempted.
+var vC08CauseHangs bool
+
+func vC08SafeCause(e error, risky bool) (error, bool) {
+	if !risky {
+		return Cause(e), true
+	}
+	if vC08CauseHangs {
+		return nil, false
+	}
+	ch := make(chan error, 1)
+	go func() { ch <- Cause(e) }()
+	select {
+	case r := <-ch:
+		return r, true
+	case <-time.After(2 * time.Second):
+		vC08CauseHangs = true
+		return nil, false
+	}
+}
+
+// the start form of table entry i as the case text gives it
+func vC08StartOf(i int) vSx {
+	if i < 0 {
+		return vL(vZ(0))
+	}
+	m := vC08Metas[i]
+	switch m.form {
+	case 4:
+		return vL(vZ(4), vI(i), vS(vC08Sentinels[i].Error()), vI(m.kind), vC08StartOf(m.inner))
+	case 5:
+		return vL(vZ(5), vI(i), vS(vC08Sentinels[i].Error()), vC08StartOf(m.inner))
+	}
+	return vL(vZ(1), vI(i), vS(vC08Sentinels[i].Error()))
+}
+
+// the entry errors.Cause must return for table entry i: causers are unwound, nothing else is
+func vC08Expected(i int) int {
+	for vC08Metas[i].form == 5 {
+		i = vC08Metas[i].inner
+	}
+	return i
 }
 
 const vC08FreshID = 1000
@@ -102,29 +210,40 @@ func vC08RunErrors(c vSx) (obs vSx, failOracle, failDetail string, nontrivial bo
 		return bad, "", "", false
 	}
 	st := c.l[1].l
-	var cur, root, fresh error
+	var cur, root, causeRoot, fresh error
+	risky := false // the root unwraps to itself
+	hung := false
+	cause := func(e error) error {
+		r, ok := vC08SafeCause(e, risky)
+		if !ok {
+			hung = true
+		}
+		return r
+	}
 	var wantMsgs []string // outermost first; the last element is the root's text
 	switch st[0].int() {
 	case 0:
 		if len(st) != 1 {
 			return bad, "", "", false
 		}
-	case 1:
-		if len(st) != 3 || st[1].int() < 0 || st[1].int() >= len(vC08Sentinels) {
+	case 1, 4, 5:
+		if len(st) < 3 || !st[1].isInt() || st[1].int() < 0 || st[1].int() >= len(vC08Sentinels) {
 			return bad, "", "", false
 		}
-		root = vC08Sentinels[st[1].int()]
-		cur = root
-		wantMsgs = []string{string(st[2].b)}
-		if root.Error() != string(st[2].b) {
-			return bad, "", "", false // case text does not describe the sentinel
+		if c.l[1].String() != vC08StartOf(st[1].int()).String() {
+			return bad, "", "", false // case text does not describe the table entry
 		}
+		root = vC08Sentinels[st[1].int()]
+		causeRoot = vC08Sentinels[vC08Expected(st[1].int())]
+		risky = causeRoot == error(vC08SelfWrap)
+		cur = root
+		wantMsgs = []string{root.Error()}
 	case 2:
 		if len(st) != 3 {
 			return bad, "", "", false
 		}
 		fresh = New(string(st[2].b))
-		root, cur = fresh, fresh
+		root, cur, causeRoot = fresh, fresh, fresh
 		wantMsgs = []string{string(st[2].b)}
 	case 3:
 		if len(st) != 3 || !st[2].isList() {
@@ -135,7 +254,7 @@ func vC08RunErrors(c vSx) (obs vSx, failOracle, failDetail string, nontrivial bo
 			return bad, "", "", false
 		}
 		fresh = Errorf(f, args...)
-		root, cur = fresh, fresh
+		root, cur, causeRoot = fresh, fresh, fresh
 		wantMsgs = []string{want}
 	default:
 		return bad, "", "", false
@@ -145,7 +264,7 @@ func vC08RunErrors(c vSx) (obs vSx, failOracle, failDetail string, nontrivial bo
 			failOracle, failDetail = o, d
 		}
 	}
-	if st[0].int() >= 2 && fresh == nil {
+	if (st[0].int() == 2 || st[0].int() == 3) && fresh == nil {
 		fail("errors-new-nil", "New/Errorf returned nil")
 	}
 	for i, op := range c.l[2].l {
@@ -186,20 +305,24 @@ func vC08RunErrors(c vSx) (obs vSx, failOracle, failDetail string, nontrivial bo
 			wantMsgs = append([]string{msg}, wantMsgs...)
 		}
 		if next != nil && root != nil {
-			if got := Cause(next); got != root {
-				fail("errors-cause", fmt.Sprintf("after op %d (kind %d): Cause is %#v (id %d), want the root (%q)", i, op.l[0].int(), got, vC08CauseID(got, fresh), root.Error()))
+			if got := cause(next); !hung && got != causeRoot {
+				fail("errors-cause", fmt.Sprintf("after op %d (kind %d): Cause is %#v (id %d), want the root it was given (%q, id %d)", i, op.l[0].int(), got, vC08CauseID(got, fresh), causeRoot.Error(), vC08CauseID(causeRoot, fresh)))
 			}
 		}
 		cur = next
 	}
 	if cur == nil {
-		if Cause(cur) != nil {
-			fail("errors-cause", "Cause(nil) is not nil")
+		if cause(cur) != nil {
+			fail("errors-cause", "cause(nil) is not nil")
 		}
 		return vL(vZ(0), vZ(0)), failOracle, failDetail, false
 	}
+	if hung {
+		fail("errors-cause", "errors.Cause does not return on an error whose Unwrap() returns the error itself")
+		return vL(vZ(0), vZ(1), vZ(-4), vS(cur.Error())), failOracle, failDetail, true
+	}
 	text := cur.Error()
-	cid := vC08CauseID(Cause(cur), fresh)
+	cid := vC08CauseID(cause(cur), fresh)
 	if root != nil {
 		want := strings.Join(wantMsgs, ": ")
 		if text != want {
@@ -211,9 +334,18 @@ func vC08RunErrors(c vSx) (obs vSx, failOracle, failDetail string, nontrivial bo
 		if s := fmt.Sprintf("%v", cur); s != text {
 			fail("errors-message", fmt.Sprintf("%%v prints %q, Error() is %q", s, text))
 		}
-		if Cause(Cause(cur)) != root {
-			fail("errors-cause", "Cause(Cause(e)) is not the root")
+		if got := cause(cur); got == nil {
+			fail("errors-cause", "Cause of a non-nil error is nil")
+		} else if got != causeRoot {
+			fail("errors-cause", fmt.Sprintf("Cause is %#v (id %d), want the root it was given (%q)", got, vC08CauseID(got, fresh), causeRoot.Error()))
 		}
+		if cause(cause(cur)) != causeRoot {
+			fail("errors-cause", "cause(cause(e)) is not the root")
+		}
+	}
+	if hung {
+		fail("errors-cause", "errors.Cause does not return on an error whose Unwrap() returns the error itself")
+		cid = -4
 	}
 	return vL(vZ(0), vZ(1), vI(cid), vS(text)), failOracle, failDetail, len(c.l[2].l) >= 2
 }
@@ -265,7 +397,10 @@ func vC08GenErrors(r *vRng) vSx {
 		start = vL(vZ(3), vZ(vC08FreshID), vC08Pieces(r))
 	default:
 		i := r.intn(len(vC08Sentinels))
-		start = vL(vZ(1), vI(i), vS(vC08Sentinels[i].Error()))
+		if r.chance(1, 2) {
+			i = r.rng(10, len(vC08Sentinels)-1) // wrapper-typed roots and foreign causers
+		}
+		start = vC08StartOf(i)
 	}
 	var depth int
 	switch r.intn(8) {
